@@ -346,6 +346,50 @@ def run(ck: Check):
         ok, short = check_trace(ck, ncfg, xs, out, extra=dict(scenario=f"{how} after {len(xs0)} updates, then reset(): the posterior must be the one of the configuration as it is now", updates_before=len(xs0)))
         ck.case(dict(config=ncfg, kind="model-then-reset", how=how), nontrivial=short, key=repr(("mtr", ncfg, xs, k)))
         ck.count("model_then_reset_cases")
+    # a detector copied in mid-stream (copy.deepcopy / a pickle round trip, what checkpointing does): the COPY, fed the rest
+    # of the stream, must hold the exact posterior of the whole stream, and the original must be unaffected by it
+    import copy as _copy
+    import pickle as _pickle
+
+    for k in range(4 if not thorough else 16):
+        pm, pv, dv = prng.choice([0.0, 2.0]), prng.choice([1.0, 9.0]), prng.choice([0.5, 2.0])
+        ccfg = dict(prior_mean=pm, prior_var=pv, data_var=dv, hazard=prng.choice([0.02, 0.2]), min_num_instances=prng.choice([1, 4]))
+        pre = [prng.gauss(pm, 1) for _ in range(prng.choice([1, 6, 13]))]
+        suf = [prng.gauss(pm + 3, 1) for _ in range(10)]
+        how = "copy.deepcopy" if k % 2 == 0 else "pickle round trip"
+        try:
+            d = _BOCD(config=_BOCDConfig(model=_GUM(prior_mean=pm, prior_var=pv, data_var=dv), hazard=ccfg["hazard"], min_num_instances=ccfg["min_num_instances"]))
+            o_pre = run_obj(d, pre)
+            c = _copy.deepcopy(d) if k % 2 == 0 else _pickle.loads(_pickle.dumps(d))
+            o_copy = run_obj(c, suf)
+            o_orig = run_obj(d, suf)
+        except Exception as e:  # noqa: BLE001
+            ck.violation(dict(clause="raises", scenario="copied-in-mid-stream", how=how), dict(what=f"a detector obtained by {how} after {len(pre)} updates cannot be updated further (or the copy disturbed the original)", config=ccfg, prefix=pre, suffix=suf, error=repr(e)))
+            continue
+        ok1, short = check_trace(ck, ccfg, pre + suf, o_pre + o_copy, extra=dict(scenario=f"{how} after {len(pre)} updates; the copy is fed the rest of the stream", updates_before=len(pre)))
+        ok2, _ = check_trace(ck, ccfg, pre + suf, o_pre + o_orig, extra=dict(scenario=f"original detector after a {how} of it was taken and updated", updates_before=len(pre)))
+        ck.case(dict(config=ccfg, kind="copied-in-mid-stream", how=how, prefix_len=len(pre)), nontrivial=True, key=repr(("copy", ccfg, pre, suf, k)))
+        ck.count("copied_in_mid_stream_cases")
+    # scale invariance at the ends of the binary64 range: data and prior mean multiplied by S = 2^510 (2^-500: the posterior precisions n/data_var still fit), the two
+    # variances by S^2 - every quantity stays finite and normal, and the posterior is that of the stream in unit scale
+    # (checked against the reference computed in unit scale)
+    for k in range(2 if not thorough else 6):
+        pm, pv, dv = prng.choice([0.0, 0.5]), prng.choice([1.0, 4.0]), prng.choice([0.5, 1.0])
+        ucfg = dict(prior_mean=pm, prior_var=pv, data_var=dv, hazard=prng.choice([0.05, 0.2]), min_num_instances=1)
+        xs = [prng.gauss(pm, 0.5) for _ in range(6)] + [prng.gauss(pm + 12, 0.5) for _ in range(4)]
+        for S in (2.0 ** 510, 2.0 ** -500):
+            try:
+                with np.errstate(all="ignore"):
+                    d = _BOCD(config=_BOCDConfig(model=_GUM(prior_mean=pm * S, prior_var=pv * S * S, data_var=dv * S * S), hazard=ucfg["hazard"], min_num_instances=1))
+                    out = run_obj(d, [x * S for x in xs])
+            except Exception as e:  # noqa: BLE001
+                ck.violation(dict(clause="raises", scenario="extreme-scale"), dict(config=ucfg, scale=repr(S), stream_unit_scale=xs, error=repr(e)))
+                continue
+            # back to unit scale: predicted mean / S, predicted variance / S^2, the rows as they are
+            out1 = [(o[0], o[1], o[2], [o[3][0] / S, o[3][1] / S / S] + list(o[3][2:])) for o in out]
+            ok, short = check_trace(ck, ucfg, xs, out1, extra=dict(scenario=f"stream, prior mean scaled by S = {S!r}, variances by S^2 (all finite): the posterior must be the one of the unit-scale stream", scale=repr(S)))
+            ck.case(dict(config=ucfg, kind="extreme-scale", scale=repr(S)), nontrivial=short, key=repr(("scale", ucfg, xs, S)))
+            ck.count("extreme_scale_cases")
     models = run_models("C08", cases, shard=8)
     corr_compare(ck, "C08", cases, impl, models, rtol=1e-7, atol=1e-9)
 
